@@ -386,3 +386,181 @@ pub fn step_push_unbounded(c: &MUCfg) {
     }
     core::mem::forget(m);
 }
+
+// ------------------------------------------------------------ many sources ending at once
+
+static mut E_POLLS: [u8; 8] = [0; 8];
+static mut E_DROPS: [u8; 8] = [0; 8];
+static mut E_ENDS: u8 = 0;
+
+/// a source that answers None (bit set in E_ENDS) or Pending on its one poll
+pub struct EndSrc {
+    id: u8,
+}
+impl Stream for EndSrc {
+    type Item = u8;
+    fn poll_next(self: Pin<&mut Self>, _cx: &mut Context<'_>) -> Poll<Option<u8>> {
+        unsafe {
+            E_POLLS[self.id as usize] += 1;
+            if (E_ENDS >> self.id) & 1 == 1 {
+                Poll::Ready(None)
+            } else {
+                Poll::Pending
+            }
+        }
+    }
+}
+impl Drop for EndSrc {
+    fn drop(&mut self) {
+        unsafe { E_DROPS[self.id as usize] += 1 }
+    }
+}
+
+/// `N` queued sources of which an arbitrary subset ends in ONE poll of the
+/// bounded merge (the two-slot step harness cannot see a defect that needs
+/// several ends in one call): every source is polled exactly once, every ended
+/// source is dropped by this call, None iff all ended, else Pending.
+pub fn end_many() {
+    const N: usize = 6;
+    gh::reset();
+    #[cfg(futures_buffered_verif_model)]
+    v::model_waker::set_big_queue(true);
+    unsafe {
+        E_POLLS = [0; 8];
+        E_DROPS = [0; 8];
+        E_ENDS = nd::below(1 << N);
+    }
+    let gh = g();
+    let t = nd::below(2) as usize;
+    let w = gh::task_waker(t);
+    let mut q = [v::QEntry { slot: 0, inflight: false }; N];
+    let mut k = 0;
+    while k < N {
+        q[k].slot = k;
+        k += 1;
+    }
+    let inner: futures_buffered::FuturesUnorderedBounded<EndSrc> = v::fub_from_parts(N, |i| Ok(EndSrc { id: i as u8 }), N, N, &q, &w, false);
+    let mut m = MergeBounded::verif_from_parts(inner);
+    gh.task_wakes = [0; 2];
+    let mut cx = Context::from_waker(&w);
+    let r = Pin::new(&mut m).poll_next(&mut cx);
+    let ends = unsafe { E_ENDS };
+    let mut i = 0;
+    let mut live = 0;
+    while i < N {
+        let ended = (ends >> i) & 1 == 1;
+        let (polls, drops) = unsafe { (E_POLLS[i], E_DROPS[i]) };
+        vassert!(polls >= 1, "C11:a queued source was not polled and the call did not yield");
+        vassert!(polls <= 1, "C12:source polled twice for one notification");
+        if ended {
+            vassert!(polls <= 1, "C05:source polled again after it answered None");
+            vassert!(drops == 1, "C05:ended source not dropped by the call that observed its end");
+        } else {
+            vassert!(drops == 0, "C06:live source dropped");
+            live += 1;
+        }
+        i += 1;
+    }
+    vassert!(m.verif_inner().len() == live, "C11:a source is held after it ended, or was removed although it did not end");
+    match r {
+        Poll::Ready(Some(_)) => vassert!(false, "C11:yielded an item no held source produced"),
+        Poll::Ready(None) => vassert!(live == 0, "C11:None although a source is still live"),
+        Poll::Pending => {
+            vassert!(live > 0, "C11:Pending although every source has ended");
+            vassert!(gh.task_wakes[0] == 0 && gh.task_wakes[1] == 0, "C14:task woken although no child waker was invoked");
+        }
+    }
+    vcover!(live == 0, "cover:all_ended");
+    vcover!(live == 1, "cover:one_left");
+    core::mem::forget(m);
+}
+
+// ------------------------------------------------------------ three groups: removal keeps the order
+
+/// `MergeUnbounded<EndSrc>` with three groups (capacities 1, 2, 4) holding one
+/// source each; every source is queued or asleep, and answers None or Pending
+/// (concrete per harness), so a given subset of the groups runs empty in this
+/// ONE poll; the polling task and the registration state are symbolic. Afterwards the remaining groups are still in increasing capacity
+/// order (U1: the largest allocation is the last group - the one `push` fills
+/// and `poll_next` retains), exactly the groups that ran empty (other than
+/// the last) are gone, nothing else was touched.
+pub fn rot_unbounded(cursor: usize, queued_mask: u8, ends_mask: u8) {
+    gh::reset();
+    let caps = [1usize, 2, 4];
+    unsafe {
+        E_POLLS = [0; 8];
+        E_DROPS = [0; 8];
+        // concrete per harness: a symbolic choice of which groups run empty makes
+        // every later group access go through a symbolic pointer (> 20 GB)
+        E_ENDS = ends_mask;
+    }
+    let queued = queued_mask;
+    let gh = g();
+    let t = nd::below(2) as usize;
+    let w = gh::task_waker(t);
+    let q = [v::QEntry { slot: 0, inflight: false }; MAXS];
+    let mut groups = std::vec::Vec::with_capacity(4);
+    let mut k = 0;
+    while k < 3 {
+        let ql = ((queued >> k) & 1) as usize;
+        let id = k as u8;
+        groups.push(v::fub_from_parts(caps[k], |i| if i == 0 { Ok(EndSrc { id }) } else { Err(i + 1) }, 1, ql, &q, &w, false));
+        k += 1;
+    }
+    let mut m = MergeUnbounded::verif_from_parts(groups, cursor);
+    gh.task_wakes = [0; 2];
+    let mut cx = Context::from_waker(&w);
+    let a0 = gh::allocs();
+    gh::alloc_track(true);
+    let r = Pin::new(&mut m).poll_next(&mut cx);
+    gh::alloc_track(false);
+    vassert!(gh::allocs() == a0, "C18:MergeUnbounded allocated during poll_next");
+    let ends = unsafe { E_ENDS };
+    let n2 = m.verif_n_groups();
+    vassert!(n2 >= 1 && n2 <= 3 && m.verif_poll_next() <= n2, "C13:group cursor out of range");
+    let mut present = [false; 3];
+    let mut j = 0;
+    while j < 3 {
+        if j < n2 {
+            let cj = m.verif_group(j).capacity();
+            if j + 1 < n2 {
+                let cn = m.verif_group(j + 1).capacity();
+                vassert!(cj < cn, "C18:groups no longer in increasing capacity order: the largest allocation is not the last group, pushes allocate anew although it has room");
+            }
+            let mut k = 0;
+            while k < 3 {
+                if cj == caps[k] {
+                    present[k] = true;
+                }
+                k += 1;
+            }
+        }
+        j += 1;
+    }
+    let mut live = 0;
+    let mut k = 0;
+    while k < 3 {
+        let was_queued = (queued >> k) & 1 == 1;
+        let ended = was_queued && (ends >> k) & 1 == 1;
+        let (polls, drops) = unsafe { (E_POLLS[k], E_DROPS[k]) };
+        vassert!(polls == was_queued as u8, "C12:a source was polled without having been notified, or a notified source was not polled");
+        if ended {
+            vassert!(drops == 1, "C05:ended source not dropped by the call that observed its end");
+            vassert!(!present[k] || k == 2, "C11:a group that ran empty is still held");
+        } else {
+            live += 1;
+            vassert!(drops == 0, "C06:live source dropped");
+            vassert!(present[k], "C11:group of a live source discarded");
+        }
+        k += 1;
+    }
+    vassert!(present[2], "C18:the largest group was discarded");
+    match r {
+        Poll::Ready(Some(_)) => vassert!(false, "C11:yielded an item no held source produced"),
+        Poll::Ready(None) => vassert!(live == 0, "C11:None although a source is still live"),
+        Poll::Pending => vassert!(live > 0, "C11:Pending although every source has ended"),
+    }
+    vcover!(n2 == 1, "cover:two_groups_removed");
+    vcover!(n2 == 2, "cover:one_group_removed");
+    core::mem::forget(m);
+}
